@@ -238,4 +238,214 @@ theorem settle_shrink (c o : List Block) (b : Block) (Y Z : List Tx) (hnd : ((Y 
     · exact List.mem_append_left _ ((hS t).2 ⟨h, fun hl => hnl (k1 t hl)⟩)
     · exact List.mem_append_right _ h
 
+
+-- ------------------------------------------------------------------ the two folds of the block-by-block composition
+
+/-- the disconnect phase: the blocks of `old` leave the chain one by one, tip first -/
+def discFold (e : Env) (c0 old : List Block) (init : List Block × List Tx) : List Block × List Tx :=
+  (List.range old.length).foldl (fun (cp : List Block × List Tx) k =>
+    (c0 ++ old.take (old.length - k - 1), onChainMoved e cp.1 (c0 ++ old.take (old.length - k - 1)) cp.2)) init
+
+/-- the connect phase: the blocks of `new` join the chain one by one -/
+def connFold (e : Env) (c0 new : List Block) (init : List Block × List Tx) : List Block × List Tx :=
+  (List.range new.length).foldl (fun (cp : List Block × List Tx) k =>
+    (c0 ++ new.take (k + 1), onChainMoved e cp.1 (c0 ++ new.take (k + 1)) cp.2)) init
+
+/-- the un-confirmed transactions of the blocks `bs` -/
+def backOf (e : Env) (bs : List Block) : List Tx := (bs.flatMap (·.txs)).filter (fun t => !t.cb && relevant e t)
+
+theorem foldl_congr_mem {α β : Type} (f g : β → α → β) : ∀ (l : List α) (a : β), (∀ a, ∀ x ∈ l, f a x = g a x) →
+    l.foldl f a = l.foldl g a := by
+  intro l
+  induction l with
+  | nil => intro a _; rfl
+  | cons x l ih =>
+    intro a h
+    simp only [List.foldl_cons]
+    rw [h a x List.mem_cons_self]
+    exact ih _ (fun a y hy => h a y (List.mem_cons_of_mem _ hy))
+
+theorem connFold_snoc (e : Env) (c0 n : List Block) (b : Block) (init : List Block × List Tx) :
+    connFold e c0 (n ++ [b]) init =
+      (c0 ++ (n ++ [b]), onChainMoved e (connFold e c0 n init).1 (c0 ++ (n ++ [b])) (connFold e c0 n init).2) := by
+  unfold connFold
+  rw [List.length_append, List.length_singleton, List.range_succ, List.foldl_append]
+  simp only [List.foldl_cons, List.foldl_nil]
+  have hfold : (List.range n.length).foldl (fun (cp : List Block × List Tx) k =>
+      (c0 ++ (n ++ [b]).take (k + 1), onChainMoved e cp.1 (c0 ++ (n ++ [b]).take (k + 1)) cp.2)) init =
+      (List.range n.length).foldl (fun (cp : List Block × List Tx) k =>
+      (c0 ++ n.take (k + 1), onChainMoved e cp.1 (c0 ++ n.take (k + 1)) cp.2)) init := by
+    apply foldl_congr_mem
+    intro a k hk
+    have hk' : k + 1 ≤ n.length := by have := List.mem_range.1 hk; omega
+    rw [List.take_append_of_le_length hk']
+  rw [hfold]
+  have : (n ++ [b]).take (n.length + 1) = n ++ [b] := by
+    rw [List.take_of_length_le]; simp
+  rw [this]
+
+theorem discFold_snoc (e : Env) (c0 o : List Block) (b : Block) (init : List Block × List Tx) :
+    discFold e c0 (o ++ [b]) init = discFold e c0 o (c0 ++ o, onChainMoved e init.1 (c0 ++ o) init.2) := by
+  unfold discFold
+  rw [List.length_append, List.length_singleton, List.range_succ_eq_map, List.foldl_cons, List.foldl_map]
+  have h0 : (o ++ [b]).take (o.length + 1 - 0 - 1) = o := by
+    rw [show o.length + 1 - 0 - 1 = o.length by omega, List.take_left']; rfl
+  rw [h0]
+  apply foldl_congr_mem
+  intro a k _
+  have : (o ++ [b]).take (o.length + 1 - (k + 1) - 1) = o.take (o.length - k - 1) := by
+    rw [show o.length + 1 - (k + 1) - 1 = o.length - k - 1 by omega, List.take_append_of_le_length (by omega)]
+  simp only [Nat.succ_eq_add_one, this]
+
+/-- THE CONNECT PHASE = ONE SETTLE (members) -/
+theorem connFold_settle (e : Env) (c0 : List Block) (X : List Tx) :
+    ∀ (rn : List Block) (Q : List Tx) (init : List Block × List Tx), init.1 = c0 → init.2 = Q →
+      (Q.map (·.id)).Nodup → (∀ q ∈ Q, q ∈ X) → Consistent c0 Q →
+      (∀ k, k ≤ rn.length → VOK (c0 ++ rn.reverse.take k) [] X) →
+      (connFold e c0 rn.reverse init).1 = c0 ++ rn.reverse ∧
+      ((connFold e c0 rn.reverse init).2.map (·.id)).Nodup ∧
+      ∀ t, t ∈ (connFold e c0 rn.reverse init).2 ↔ t ∈ settle (c0 ++ rn.reverse) [] Q := by
+  intro rn
+  induction rn with
+  | nil =>
+    intro Q init h1 h2 hnd _ hcons _
+    simp only [List.reverse_nil, List.append_nil]
+    refine ⟨h1, by show (init.2.map _).Nodup; rw [h2]; exact hnd, fun t => ?_⟩
+    show t ∈ init.2 ↔ _
+    rw [h2, mem_settle_consistent hnd hcons]
+  | cons b rn ih =>
+    intro Q init h1 h2 hnd hsub hcons hV
+    obtain ⟨i1, i2, i3⟩ := ih Q init h1 h2 hnd hsub hcons (fun k hk => by
+      have := hV k (by simp; omega)
+      rw [List.reverse_cons, List.take_append_of_le_length (by simpa using hk)] at this
+      exact this)
+    rw [List.reverse_cons, connFold_snoc, i1]
+    refine ⟨rfl, ?_, fun t => ?_⟩
+    · show ((onChainMoved e _ _ _).map _).Nodup
+      rw [← List.append_assoc, onChainMoved_connect]
+      exact settle_nodup _ _ _ i2
+    · show t ∈ onChainMoved e _ _ _ ↔ _
+      rw [← List.append_assoc, onChainMoved_connect]
+      have hVk := hV (rn.length + 1) (by simp)
+      rw [List.reverse_cons, List.take_of_length_le (by simp), ← List.append_assoc] at hVk
+      have hVQ : VOK (c0 ++ rn.reverse ++ [b]) [] Q := fun p hp => hVk p (hsub p hp)
+      rw [mem_settle_congr (c := c0 ++ rn.reverse ++ [b]) (d := []) i2 (settle_nodup _ _ _ hnd) i3 t]
+      exact settle_extend (c0 ++ rn.reverse) [b] [] Q hnd hVQ t
+
+
+-- ------------------------------------------------------------------ the disconnect phase
+
+theorem backOf_append (e : Env) (a b : List Block) : backOf e (a ++ b) = backOf e a ++ backOf e b := by
+  unfold backOf; rw [List.flatMap_append, List.filter_append]
+
+theorem backOf_single (e : Env) (b : Block) : backOf e [b] = b.txs.filter (fun t => !t.cb && relevant e t) := by
+  unfold backOf; simp
+
+theorem mem_backOf {e : Env} {bs : List Block} {t : Tx} (h : t ∈ backOf e bs) :
+    t ∈ bs.flatMap (·.txs) ∧ t.cb = false := by
+  unfold backOf at h
+  obtain ⟨h1, h2⟩ := List.mem_filter.1 h
+  simp only [Bool.and_eq_true, Bool.not_eq_true'] at h2
+  exact ⟨h1, h2.1⟩
+
+theorem backOf_sublist (e : Env) (bs : List Block) : (backOf e bs).Sublist (bs.flatMap (·.txs)) := List.filter_sublist
+
+/-- what the disconnect phase needs of the old branch (facts of a valid chain + the pending list is consistent with it) -/
+structure DiscAll (e : Env) (c0 old : List Block) (P : List Tx) : Prop where
+  nd : ((P ++ old.flatMap (·.txs)).map (·.id)).Nodup
+  cons : Consistent (c0 ++ old) P
+  split : ∀ o b r, old = o ++ b :: r →
+    (∀ x ∈ c0 ++ o, x.id ≠ b.id) ∧
+    (∀ t ∈ b.txs, onChain (c0 ++ o) t.id = false ∧ conflictedBy (c0 ++ o) t = false) ∧
+    (∀ z ∈ o.flatMap (·.txs), orphanedBy [b] z = false ∧
+      (z.cb = false → ∀ i ∈ z.ins, onChain (c0 ++ o) i.tx = true))
+
+theorem false_of_or_false {a b : Bool} (h : (a || b) = false) : a = false := by
+  cases a <;> simp_all
+
+/-- THE DISCONNECT PHASE = ONE SETTLE (members) -/
+theorem discFold_settle (e : Env) (c0 : List Block) : ∀ (ro : List Block) (P : List Tx),
+    DiscAll e c0 ro.reverse P →
+    (discFold e c0 ro.reverse (c0 ++ ro.reverse, P)).1 = c0 ∧
+    ((discFold e c0 ro.reverse (c0 ++ ro.reverse, P)).2.map (·.id)).Nodup ∧
+    ∀ t, t ∈ (discFold e c0 ro.reverse (c0 ++ ro.reverse, P)).2 ↔
+      t ∈ settle c0 ro.reverse (P ++ backOf e ro.reverse) := by
+  intro ro
+  induction ro with
+  | nil =>
+    intro P D
+    have hnd : (P.map (·.id)).Nodup := by simpa using D.nd
+    have hc : Consistent c0 P := by simpa using D.cons
+    simp only [List.reverse_nil, List.append_nil]
+    refine ⟨rfl, hnd, fun t => ?_⟩
+    show t ∈ P ↔ t ∈ settle c0 [] (P ++ backOf e [])
+    rw [show backOf e [] = [] from rfl, List.append_nil, mem_settle_consistent hnd hc]
+  | cons b ro ih =>
+    intro P D
+    rw [List.reverse_cons] at D ⊢
+    generalize ro.reverse = o at D ih ⊢
+    obtain ⟨hb, hbt, hz⟩ := D.split o b [] rfl
+    have hflat : (o ++ [b]).flatMap (·.txs) = o.flatMap (·.txs) ++ b.txs := by simp
+    have hndAll : ((P ++ (o.flatMap (·.txs) ++ b.txs)).map (·.id)).Nodup := by rw [← hflat]; exact D.nd
+    have hperm : ((P ++ b.txs) ++ o.flatMap (·.txs)).Perm (P ++ (o.flatMap (·.txs) ++ b.txs)) := by
+      rw [List.append_assoc]
+      exact List.Perm.append_left _ List.perm_append_comm
+    have hndPBO : (((P ++ b.txs) ++ o.flatMap (·.txs)).map (·.id)).Nodup := (hperm.map _).nodup_iff.2 hndAll
+    have hPb : ∀ t ∈ b.txs, hasId P t.id = false := by
+      intro t ht
+      rw [hasId_false_iff]
+      intro x hx hid
+      rw [List.map_append, List.map_append] at hndPBO
+      exact (List.nodup_append.1 (List.nodup_append.1 hndPBO).1).2.2 _ (List.mem_map.2 ⟨x, hx, rfl⟩) _
+        (List.mem_map.2 ⟨t, ht, rfl⟩) hid
+    have hP1 : onChainMoved e (c0 ++ (o ++ [b])) (c0 ++ o) P = settle (c0 ++ o) [b] (P ++ backOf e [b]) := by
+      rw [← List.append_assoc, onChainMoved_disconnect e (c0 ++ o) b P hb, backOf_single]
+      congr 2
+      apply List.filter_congr
+      intro t ht
+      rw [hPb t ht]; simp
+    rw [discFold_snoc]
+    simp only []
+    rw [hP1]
+    have hsubY : (P ++ backOf e [b]).Sublist (P ++ b.txs) := by
+      rw [backOf_single]; exact (List.Sublist.refl P).append List.filter_sublist
+    have hndY : ((P ++ backOf e [b]).map (·.id)).Nodup :=
+      List.Nodup.sublist (hsubY.map _) (by
+        rw [List.map_append] at hndPBO; exact (List.nodup_append.1 hndPBO).1)
+    have hndYZ : (((P ++ backOf e [b]) ++ backOf e o).map (·.id)).Nodup :=
+      List.Nodup.sublist ((hsubY.append (backOf_sublist e o)).map _) hndPBO
+    have hcons1 : Consistent (c0 ++ o) (settle (c0 ++ o) [b] (P ++ backOf e [b])) := settle_consistent _ _ _ hndY
+    have D1 : DiscAll e c0 o (settle (c0 ++ o) [b] (P ++ backOf e [b])) := by
+      refine ⟨?_, hcons1, ?_⟩
+      · exact List.Nodup.sublist ((((settle_sublist _ _ _).trans hsubY).append (List.Sublist.refl _)).map _) hndPBO
+      · intro o1 b1 r1 h1
+        exact D.split o1 b1 (r1 ++ [b]) (by rw [h1]; simp)
+    obtain ⟨j1, j2, j3⟩ := ih _ D1
+    refine ⟨j1, j2, fun t => ?_⟩
+    rw [j3]
+    have hY : ∀ y ∈ P ++ backOf e [b], onChain (c0 ++ o) y.id = false ∧ conflictedBy (c0 ++ o) y = false := by
+      intro y hy
+      rcases List.mem_append.1 hy with hy | hy
+      · obtain ⟨g1, g2⟩ := D.cons y hy
+        rw [← List.append_assoc, onChain_append] at g1
+        rw [← List.append_assoc, conflictedBy_append] at g2
+        exact ⟨false_of_or_false g1, false_of_or_false g2⟩
+      · rw [backOf_single] at hy
+        exact hbt y (List.mem_filter.1 hy).1
+    rw [settle_shrink c0 o b (P ++ backOf e [b]) (backOf e o) hndYZ (fun y hy => (hY y hy).1) (fun y hy => (hY y hy).2)
+      (fun z hzz => (hz z (mem_backOf hzz).1).1) (fun z hzz => (hz z (mem_backOf hzz).1).2 (mem_backOf hzz).2) t]
+    refine mem_settle_congr hndYZ ?_ (fun x => ?_) t
+    · exact List.Nodup.sublist (((List.Sublist.refl P).append (backOf_sublist e (o ++ [b]))).map _) D.nd
+    · rw [backOf_append]
+      simp only [List.mem_append]
+      constructor
+      · rintro ((h | h) | h)
+        · exact Or.inl h
+        · exact Or.inr (Or.inr h)
+        · exact Or.inr (Or.inl h)
+      · rintro (h | h | h)
+        · exact Or.inl (Or.inl h)
+        · exact Or.inr h
+        · exact Or.inl (Or.inr h)
+
 end MW.Lemmas.PendHist.Compose
